@@ -13,3 +13,4 @@ import Crd.Props.C12
 #print axioms Crd.Props.C12.chain_order_irrelevant
 #print axioms Crd.Props.C12.listings_sorted
 #print axioms Crd.Props.C12.validation_order_irrelevant
+#print axioms Crd.Props.C12.meta_marshal_order_irrelevant
